@@ -397,6 +397,10 @@ func WorkerMain(t *testing.T, engines map[string]Engine) {
 		account(o.c)
 		if job.LogDump {
 			sum.LogHashes[fmt.Sprint(idx)] = o.c.LogHash()
+			if d := os.Getenv("VERIF_LOG_DIR"); d != "" {
+				// development aid for the determinism self-test: the (tail of the) event log of every run
+				_ = os.WriteFile(fmt.Sprintf("%s/log-%d-gmp%s.txt", d, idx, os.Getenv("GOMAXPROCS")), []byte(strings.Join(o.c.LogLines, "\n")+"\n"), 0o600)
+			}
 		}
 		if o.c.Viol == nil {
 			if o.tainted {
